@@ -795,8 +795,12 @@ do_ids(char *act, char *kind, long a2)
 			idk[k].id[i] = id;
 			idk[k].n++;
 		}
-		o("{\"out\":{\"rv\":\"%s\",\"fresh\":%s,\"inrange\":%s,\"unique\":%s}", rv == 0 ? "ok" : nng_strerror(rv), fresh ? "true" : "false",
-		    (rv == 0 && id >= 1 && id <= 0x7fffffffu) ? "true" : "false", uniq ? "true" : "false");
+		if (rv != 0) {
+			o("{\"out\":{\"rv\":\"%s\"}", rvname(rv));
+		} else {
+			o("{\"out\":{\"rv\":\"ok\",\"fresh\":%s,\"inrange\":%s,\"unique\":%s}", fresh ? "true" : "false",
+			    (id >= 1 && id <= 0x7fffffffu) ? "true" : "false", uniq ? "true" : "false");
+		}
 	} else if (!strcmp(act, "close")) {
 		int i = (int) a2 - 1, rv2;
 		rv  = ids_close_handle(k, i);
